@@ -574,6 +574,26 @@ Proof.
   perm_count.
 Qed.
 
+Lemma offer_lazy_own st nx v idx src sidx r D L :
+  1 <= nx -> sp_offer_lazy c st nx v idx src sidx = Some r ->
+  Permutation (created c nx) (vis st ++ D ++ L) ->
+  Permutation (created c (s_nx r)) (vis (s_st r) ++ (D ++ drops (s_evs r)) ++ (L ++ [])).
+Proof.
+  intros Hnx Hr Hinv. unfold sp_offer_lazy in Hr.
+  destruct (Nat.eqb src v); [discriminate|].
+  destruct (get_a v st) as [a|] eqn:Hg; [|discriminate].
+  destruct (get_a src st) as [b|]; [|discriminate].
+  destruct (sidx <? N.of_nat (length (a_xs b))).
+  - cbv zeta in Hr. destruct (put_value c a idx (tok c nx)) as [xs'|p] eqn:Ep; injection Hr as <-.
+    + cbn [ok_res s_nx s_st s_evs drops flat_map app]. rewrite (created_succ c nx Hnx).
+      pose proof (put_value_perm c a idx (tok c nx) xs' Ep) as Hp.
+      pose proof (vis_get_any st v) as Hv. rewrite Hg in Hv. cbn [slot_xs] in Hv.
+      pose proof (vis_set_any st v (Some (with_xs a xs'))) as H1. cbn [slot_xs with_xs a_xs] in H1.
+      perm_count.
+    + cbn [panic_res s_nx s_st s_evs drops flat_map]. perm_count.
+  - injection Hr as <-. cbn [panic_res s_nx s_st s_evs drops flat_map]. perm_count.
+Qed.
+
 Theorem step_own st nx o r D L :
   1 <= nx -> spec_step c st nx o = Some r ->
   Permutation (created c nx) (vis st ++ D ++ L) ->
@@ -592,11 +612,19 @@ Proof.
   - (* OPush *)
     cbn [leak_of]. destruct (fresh_src s).
     + pose proof (offer_own st nx v None r D L Hnx Hr Hinv) as H. perm_count.
-    + destruct a; [|discriminate]. destruct s; try discriminate; exact (offer_wrong_own st nx v k r D L Hnx Hr Hinv).
+    + destruct s; try (destruct a; discriminate).
+      * destruct a; [|discriminate]. exact (offer_wrong_own st nx v k r D L Hnx Hr Hinv).
+      * destruct a; [|discriminate]. exact (offer_wrong_own st nx v k r D L Hnx Hr Hinv).
+      * assert (Hr' : sp_offer_lazy c st nx v None vid idx = Some r) by (destruct a; exact Hr).
+        exact (offer_lazy_own st nx v None vid idx r D L Hnx Hr' Hinv).
   - (* OInsert *)
     cbn [leak_of]. destruct (fresh_src s).
     + pose proof (offer_own st nx v (Some idx) r D L Hnx Hr Hinv) as H. perm_count.
-    + destruct a; [|discriminate]. destruct s; try discriminate; exact (offer_wrong_own st nx v k r D L Hnx Hr Hinv).
+    + destruct s; try (destruct a; discriminate).
+      * destruct a; [|discriminate]. exact (offer_wrong_own st nx v k r D L Hnx Hr Hinv).
+      * destruct a; [|discriminate]. exact (offer_wrong_own st nx v k r D L Hnx Hr Hinv).
+      * assert (Hr' : sp_offer_lazy c st nx v (Some idx) vid idx0 = Some r) by (destruct a; exact Hr).
+        exact (offer_lazy_own st nx v (Some idx) vid idx0 r D L Hnx Hr' Hinv).
   - (* OPop *)
     pose proof (take_own st nx v TPop 0 k r D L (fun _ => eq_refl) Hnx Hr Hinv) as H.
     cbn [leak_of]. destruct k; exact H.
